@@ -10,7 +10,7 @@ for l in open(V + '/docs/seed_matrix.txt'):
         if (p[1], p[2]) not in mat[p[0]]:
             mat[p[0]].append((p[1], p[2]))
 rows = []
-for d in sorted(glob.glob(V + '/seeded/C*-m*')):
+for d in sorted(glob.glob(V + '/seeded/C*-m*'), key=lambda x: (os.path.basename(x).split('-m')[0], int(os.path.basename(x).split('-m')[1]))):
     sid = os.path.basename(d); prop = sid.split('-')[0]
     notes = open(d + '/notes.md').read()
     title = notes.strip().split('\n')[0].lstrip('# ').strip()
@@ -20,11 +20,12 @@ for d in sorted(glob.glob(V + '/seeded/C*-m*')):
     caught = [q for q, v in mat.get(sid, []) if v == 'caught']
     missed = [q for q, v in mat.get(sid, []) if v != 'caught' and q not in caught]
     rnd = int(open(d + '/round.txt').read()) if os.path.exists(d + '/round.txt') else (2 if int(sid.split('-m')[1]) >= 3 else 1)
-    meta = dict(id=sid, property=prop, round=rnd, title=title, change=field('Change'), breaks=field('Breaks'),
-                needs_to_manifest=field('Needs'),
+    meta = dict(id=sid, property=prop, round=rnd, title=title, change=field('Change') or 'see notes.md', breaks=field('Breaks') or 'see notes.md',
+                needs_to_manifest=field('Needs') or 'see notes.md',
                 files=dict(patch='patch.diff', demonstration='demo_test.go.txt', notes='notes.md'),
                 origin='fresh sub-agent given only the text of %s and a scratch git worktree of /repo (removed afterwards); compiles and passes `go test -vet=off -count=1 ./...`' % prop,
                 what_was_run=['git -C /repo apply /verif/seeded/%s/patch.diff' % sid] + ['./check %s --tier quick' % q for q, _ in mat.get(sid, [])] + ['git -C /repo checkout -- .'],
+                verified=['patch applies to a scratch worktree of /repo HEAD', 'go build ./... and the whole suite pass with the patch', 'the demonstration passes on the clean tree', 'the demonstration fails with the patch'],
                 caught_by=caught, missed_by=missed,
                 verdict=('reported as VIOLATION with a concrete replay input by ' + ', '.join(caught)) if caught else 'not caught')
     json.dump(meta, open(d + '/meta.json', 'w'), indent=1)
